@@ -17,82 +17,116 @@ theorem cap_not_quote : ∀ d ∈ tokCaptured, d ∉ tokQuote := by decide
 theorem dbl_cons_q (cs : Str) : dbl ('\'' :: cs) = '\'' :: '\'' :: dbl cs := by simp [dbl]
 theorem dbl_cons_nq (c : Char) (cs : Str) (h : c ≠ '\'') : dbl (c :: cs) = c :: dbl cs := by simp [dbl, h]
 
-theorem readQuoted_dbl (l : Str) : ∀ (acc rest : Str) (d : Char), d ≠ '\'' →
-    readQuoted '\'' (dbl l ++ '\'' :: d :: rest) acc = some (acc ++ l, d :: rest) := by
+/-- what may follow a closing quote: anything but another quote (or the end of the input) -/
+def NoQuoteHead : Str → Prop
+  | [] => True
+  | d :: _ => d ≠ '\''
+
+theorem readQuoted_dbl (l : Str) : ∀ (acc suf : Str), NoQuoteHead suf →
+    readQuoted '\'' (dbl l ++ '\'' :: suf) acc = some (acc ++ l, suf) := by
   induction l with
   | nil =>
-    intro acc rest d hd
-    simp [dbl, readQuoted, hd]
+    intro acc suf hd
+    cases suf with
+    | nil => simp [dbl, readQuoted]
+    | cons d rest =>
+      have hd' : d ≠ '\'' := hd
+      simp [dbl, readQuoted, hd']
   | cons c cs ih =>
-    intro acc rest d hd
+    intro acc suf hd
     by_cases hc : c = '\''
     · subst hc
       rw [dbl_cons_q]
-      show readQuoted '\'' ('\'' :: '\'' :: (dbl cs ++ '\'' :: d :: rest)) acc = _
+      show readQuoted '\'' ('\'' :: '\'' :: (dbl cs ++ '\'' :: suf)) acc = _
       rw [readQuoted.eq_def]
       simp only [beq_self_eq_true, if_true]
-      rw [ih _ _ _ hd]; simp
+      rw [ih _ _ hd]; simp
     · rw [dbl_cons_nq c cs hc]
-      show readQuoted '\'' (c :: (dbl cs ++ '\'' :: d :: rest)) acc = _
+      show readQuoted '\'' (c :: (dbl cs ++ '\'' :: suf)) acc = _
       rw [readQuoted.eq_def]
       have hc' : (c == '\'') = false := by simpa using hc
       simp only [hc', Bool.false_eq_true, if_false]
-      rw [ih _ _ _ hd]; simp
+      rw [ih _ _ hd]; simp
 
 /-- a character that the unquoted-token loop simply accumulates -/
 def ordinary (c : Char) : Bool := !isUncap c && !isCap c && !isCB c
 
-theorem readPlain_plain (pu : Bool) (l : Str) : ∀ (acc : Str) (cm : List Str) (rest : Str) (d : Char),
-    (∀ c ∈ l, ordinary c = true) → isCap d = true → isUncap d = false →
-    readPlain pu (l ++ d :: rest) acc cm = (acc ++ l.map (conv pu), cm, d :: rest) := by
+/-- what may follow an unquoted token: the end of the input, whitespace, or a captured delimiter -/
+def Stop : Str → Prop
+  | [] => True
+  | d :: _ => isUncap d = true ∨ isCap d = true
+
+/-- the input left after an unquoted token: a whitespace follower is consumed, a captured delimiter is kept -/
+def plainAfter : Str → Str
+  | [] => []
+  | d :: rest => if isUncap d then rest else d :: rest
+
+theorem readPlain_plain (pu : Bool) (l : Str) : ∀ (acc : Str) (cm : List Str) (suf : Str),
+    (∀ c ∈ l, ordinary c = true) → Stop suf →
+    readPlain pu (l ++ suf) acc cm = (acc ++ l.map (conv pu), cm, plainAfter suf) := by
   induction l with
   | nil =>
-    intro acc cm rest d _ hd hu
-    simp [readPlain, hd, hu]
+    intro acc cm suf _ hs
+    cases suf with
+    | nil => simp [readPlain, plainAfter]
+    | cons d rest =>
+      cases hu : isUncap d with
+      | true => rw [List.nil_append, readPlain]; simp [hu, plainAfter]
+      | false =>
+        have hc : isCap d = true := by
+          rcases hs with h | h
+          · rw [hu] at h; cases h
+          · exact h
+        rw [List.nil_append, readPlain]; simp [hu, hc, plainAfter]
   | cons c cs ih =>
-    intro acc cm rest d hl hd hu
+    intro acc cm suf hl hs
     have hc := hl c (by simp)
     simp only [ordinary, Bool.and_eq_true, Bool.not_eq_true'] at hc
     obtain ⟨⟨h1, h2⟩, h3⟩ := hc
     simp only [List.cons_append]
     rw [readPlain]
     simp only [h1, h2, h3, Bool.false_eq_true, if_false]
-    rw [ih _ _ _ _ (fun c' hc' => hl c' (by simp [hc'])) hd hu]
+    rw [ih _ _ _ (fun c' hc' => hl c' (by simp [hc'])) hs]
     simp
 
-
-theorem next_plain (pu : Bool) (f : Nat) (c : Char) (cs rest : Str) (d : Char)
-    (hl : ∀ x ∈ c :: cs, ordinary x = true) (hq : isQuote c = false) (hd : isCap d = true) (hu : isUncap d = false)
+theorem next_plain (pu : Bool) (f : Nat) (c : Char) (cs suf : Str)
+    (hl : ∀ x ∈ c :: cs, ordinary x = true) (hq : isQuote c = false) (hs : Stop suf)
     (cm0 : List Str) :
-    next pu (f + 1) ((c :: cs) ++ d :: rest) cm0 = .tok ((c :: cs).map (conv pu)) false cm0 (d :: rest) := by
+    next pu (f + 1) ((c :: cs) ++ suf) cm0 = .tok ((c :: cs).map (conv pu)) false cm0 (plainAfter suf) := by
   have hc := hl c (by simp)
   simp only [ordinary, Bool.and_eq_true, Bool.not_eq_true'] at hc
   obtain ⟨⟨h1, h2⟩, _⟩ := hc
   rw [next]
   simp only [List.cons_append, skipWs, h1, Bool.false_eq_true, if_false, h2, hq]
-  have := readPlain_plain pu (c :: cs) [] cm0 rest d hl hd hu
+  have := readPlain_plain pu (c :: cs) [] cm0 suf hl hs
   simp only [List.cons_append, List.nil_append] at this
   rw [this]
   simp
 
-theorem next_quoted (pu : Bool) (f : Nat) (l rest : Str) (d : Char) (hd : d ≠ '\'') (cm0 : List Str) :
-    next pu (f + 1) ('\'' :: (dbl l ++ ['\'']) ++ d :: rest) cm0 = .tok l true cm0 (d :: rest) := by
-  have e : '\'' :: (dbl l ++ ['\'']) ++ d :: rest = '\'' :: (dbl l ++ '\'' :: d :: rest) := by simp
+theorem next_quoted (pu : Bool) (f : Nat) (l suf : Str) (hd : NoQuoteHead suf) (cm0 : List Str) :
+    next pu (f + 1) ('\'' :: (dbl l ++ ['\'']) ++ suf) cm0 = .tok l true cm0 suf := by
+  have e : '\'' :: (dbl l ++ ['\'']) ++ suf = '\'' :: (dbl l ++ '\'' :: suf) := by simp
   have h1 : isUncap '\'' = false := by decide
   have h2 : isCap '\'' = false := by decide
   have h3 : isQuote '\'' = true := by decide
   rw [e, next]
   simp only [skipWs, h1, h2, h3, Bool.false_eq_true, if_false, if_true]
-  rw [readQuoted_dbl l [] rest d hd]
+  rw [readQuoted_dbl l [] suf hd]
   simp
 
+/-- a protect class that covers every special character of the label domain except the space, and the tab -/
+def Covers (p : List Char) : Prop :=
+  (∀ c ∈ tokSpecial, labelChar c = true → (c ∈ p ∨ c = ' ')) ∧ p.contains '\t' = true
 
-theorem unprotected_ordinary (c : Char) (hl : labelChar c = true) (hp : protectNewick.contains c = false) (hs : c ≠ ' ') :
+theorem covers_newick : Covers protectNewick := ⟨special_protected_tables.2, by decide⟩
+theorem covers_default : Covers protectDefault := ⟨special_protected_tables.1, by decide⟩
+
+theorem unprotected_ordinary (p : List Char) (hP : Covers p) (c : Char) (hl : labelChar c = true) (hp : p.contains c = false) (hs : c ≠ ' ') :
     ordinary c = true ∧ isQuote c = false := by
   have key : c ∈ tokSpecial → False := by
     intro hm
-    rcases special_protected_tables.2 c hm hl with h | h
-    · have : protectNewick.contains c = true := by simpa using h
+    rcases hP.1 c hm hl with h | h
+    · have : p.contains c = true := by simpa using h
       rw [hp] at this; cases this
     · exact hs h
   have a : isUncap c = false := by
@@ -114,7 +148,6 @@ theorem unprotected_ordinary (c : Char) (hl : labelChar c = true) (hp : protectN
   simp [ordinary, a, b, d, e]
 
 
-theorem tab_protected : protectNewick.contains '\t' = true := by decide
 theorem underscore_ok : ordinary '_' = true ∧ isQuote '_' = false := by decide
 
 theorem hasProt_false {p : List Char} {l : Str} (h : hasProt p l = false) : ∀ c ∈ l, p.contains c = false := by
@@ -130,11 +163,10 @@ end Aux
 def Consistent (ps uu pu : Bool) : Prop := (uu = true → pu = true) ∧ (pu = true → ps = true)
 
 namespace Aux
-/-- one `__next__` call on an escaped admissible label followed by a captured delimiter, any fuel ≥ 1, any pending comments -/
-theorem next_escape (ps uu pu : Bool) (hc : Consistent ps uu pu) (l : Str) (hne : l ≠ [])
-    (hdom : ∀ c ∈ l, labelChar c = true) (d : Char) (hd : d ∈ tokCaptured) (rest : Str) :
-    ∃ q, (∀ f cm0, next pu (f + 1) (escape ps (!uu) protectNewick l ++ d :: rest) cm0 = .tok l q cm0 (d :: rest)) ∧
-      (q = true ∨ ∀ c ∈ l, protectNewick.contains c = false) := by
+/-- followers after which a written label ends: end of input, whitespace, or a captured delimiter -/
+def Follower (suf : Str) : Prop := Stop suf ∧ NoQuoteHead suf
+
+theorem follower_cap (d : Char) (hd : d ∈ tokCaptured) (rest : Str) : Follower (d :: rest) ∧ plainAfter (d :: rest) = d :: rest := by
   have hdc : isCap d = true := by simpa [isCap] using hd
   have hdu : isUncap d = false := by
     have := cap_not_uncap d hd
@@ -145,6 +177,26 @@ theorem next_escape (ps uu pu : Bool) (hc : Consistent ps uu pu) (l : Str) (hne 
     have := cap_not_quote d hd
     rw [quote_table] at this
     simpa using this
+  exact ⟨⟨Or.inr hdc, hdq⟩, by simp [plainAfter, hdu]⟩
+
+theorem uncap_not_quote : ∀ d ∈ tokUncaptured, d ∉ tokQuote := by decide
+
+theorem follower_ws (d : Char) (hd : d ∈ tokUncaptured) (rest : Str) : Follower (d :: rest) ∧ plainAfter (d :: rest) = rest := by
+  have hdu : isUncap d = true := by simpa [isUncap] using hd
+  have hdq : d ≠ '\'' := by
+    have := uncap_not_quote d hd
+    rw [quote_table] at this
+    simpa using this
+  exact ⟨⟨Or.inl hdu, hdq⟩, by simp [plainAfter, hdu]⟩
+
+/-- one `__next__` call on an escaped admissible label followed by `suf`, for any protect class that covers the
+    special characters, any fuel ≥ 1, any pending comments: the token is the label; a quoted token leaves `suf`
+    untouched, an unquoted one consumes a whitespace follower -/
+theorem next_escape_gen (p : List Char) (hP : Covers p) (ps uu pu : Bool) (hc : Consistent ps uu pu) (l : Str) (hne : l ≠ [])
+    (hdom : ∀ c ∈ l, labelChar c = true) (suf : Str) (hsuf : Follower suf) :
+    ∃ q, (∀ f cm0, next pu (f + 1) (escape ps (!uu) p l ++ suf) cm0 = .tok l q cm0 (if q then suf else plainAfter suf)) ∧
+      (q = true ∨ ∀ c ∈ l, p.contains c = false) := by
+  have tab_protected := hP.2
   unfold escape
   split
   · -- spaces to underscores, unquoted
@@ -171,7 +223,7 @@ theorem next_escape (ps uu pu : Bool) (hc : Consistent ps uu pu) (l : Str) (hne 
           have := hnp _ hcl; rw [tab_protected] at this; cases this
         have : spaceToUnderscore c = c := by simp [spaceToUnderscore, hsp, hnt]
         rw [this]
-        exact unprotected_ordinary c (hdom c hcl) (hnp c hcl) hsp
+        exact unprotected_ordinary p hP c (hdom c hcl) (hnp c hcl) hsp
     have hback : (l.map spaceToUnderscore).map (conv pu) = l := by
       rw [hpu, List.map_map]
       conv => rhs; rw [← List.map_id l]
@@ -190,12 +242,12 @@ theorem next_escape (ps uu pu : Bool) (hc : Consistent ps uu pu) (l : Str) (hne 
       intro f cm0
       have h1 : ∀ x ∈ c :: cs, ordinary x = true := fun x hx => (hord x (hl ▸ hx)).1
       have h2 : isQuote c = false := (hord c (hl ▸ by simp)).2
-      rw [next_plain pu _ c cs rest d h1 h2 hdc hdu cm0, ← hl, hback]
+      rw [next_plain pu _ c cs suf h1 h2 hsuf.1 cm0, ← hl, hback]; simp
   · split
     · -- quoted
       refine ⟨true, ?_, Or.inl rfl⟩
       intro f cm0
-      exact next_quoted pu _ l rest d hdq cm0
+      simpa using next_quoted pu f l suf hsuf.2 cm0
     · -- verbatim
       rename_i h1 h2
       simp only [Bool.and_eq_true, Bool.not_eq_true', not_and, Bool.not_eq_false] at h1
@@ -207,7 +259,7 @@ theorem next_escape (ps uu pu : Bool) (hc : Consistent ps uu pu) (l : Str) (hne 
         have : l.contains ' ' = true := by simpa using hc'
         rw [hsp] at this; cases this
       have hord : ∀ x ∈ l, ordinary x = true ∧ isQuote x = false :=
-        fun x hx => unprotected_ordinary x (hdom x hx) (hnp x hx) (hnsp x hx)
+        fun x hx => unprotected_ordinary p hP x (hdom x hx) (hnp x hx) (hnsp x hx)
       have hback : l.map (conv pu) = l := by
         conv => rhs; rw [← List.map_id l]
         apply List.map_congr_left
@@ -229,8 +281,20 @@ theorem next_escape (ps uu pu : Bool) (hc : Consistent ps uu pu) (l : Str) (hne 
         intro f cm0
         have h1' : ∀ x ∈ c :: cs, ordinary x = true := fun x hx => (hord x (hl ▸ hx)).1
         have h2' : isQuote c = false := (hord c (hl ▸ by simp)).2
-        rw [next_plain pu _ c cs rest d h1' h2' hdc hdu cm0, ← hl, hback]
+        rw [next_plain pu _ c cs suf h1' h2' hsuf.1 cm0, ← hl, hback]; simp
 
+
+/-- the Newick writer's class, captured follower (the form used inside tree statements) -/
+theorem next_escape (ps uu pu : Bool) (hc : Consistent ps uu pu) (l : Str) (hne : l ≠ [])
+    (hdom : ∀ c ∈ l, labelChar c = true) (d : Char) (hd : d ∈ tokCaptured) (rest : Str) :
+    ∃ q, (∀ f cm0, next pu (f + 1) (escape ps (!uu) protectNewick l ++ d :: rest) cm0 = .tok l q cm0 (d :: rest)) ∧
+      (q = true ∨ ∀ c ∈ l, protectNewick.contains c = false) := by
+  obtain ⟨hf, ha⟩ := follower_cap d hd rest
+  obtain ⟨q, h, hk⟩ := next_escape_gen protectNewick covers_newick ps uu pu hc l hne hdom (d :: rest) hf
+  refine ⟨q, ?_, hk⟩
+  intro f cm0
+  rw [h f cm0, ha]
+  cases q <;> simp
 
 end Aux
 end DendroModel.C02
